@@ -21,6 +21,9 @@ pub trait ByteReader {
 
     /// Read exactly `n` bytes into a pre-allocated buffer
     fn read_into(&mut self, buf: &mut [u8]) -> ParseResult<()>;
+
+    /// Count of bytes that are left to read
+    fn remaining(&self) -> usize;
 }
 
 /// A cursor for reading binary data from a byte slice
@@ -47,7 +50,7 @@ impl ByteReader for Cursor<'_> {
     }
 
     fn read_u32_le(&mut self) -> ParseResult<u32> {
-        if self.position + 4 > self.data.len() {
+        if self.remaining() < 4 {
             return Err(Error::UnexpectedEof);
         }
         let bytes = [
@@ -61,7 +64,8 @@ impl ByteReader for Cursor<'_> {
     }
 
     fn read_bytes(&mut self, n: usize) -> ParseResult<Vec<u8>> {
-        if self.position + n > self.data.len() {
+        // `n` is usually derived from header fields: compare without adding to it
+        if n > self.remaining() {
             return Err(Error::UnexpectedEof);
         }
         let bytes = self.data[self.position..self.position + n].to_vec();
@@ -71,17 +75,27 @@ impl ByteReader for Cursor<'_> {
 
     fn read_into(&mut self, buf: &mut [u8]) -> ParseResult<()> {
         let n = buf.len();
-        if self.position + n > self.data.len() {
+        if n > self.remaining() {
             return Err(Error::UnexpectedEof);
         }
         buf.copy_from_slice(&self.data[self.position..self.position + n]);
         self.position += n;
         Ok(())
     }
+
+    fn remaining(&self) -> usize {
+        // position never moves past the end of data
+        self.data.len() - self.position
+    }
 }
 
 /// Helper function to read an array of u32 values
 pub fn read_u32_array(reader: &mut impl ByteReader, count: usize) -> ParseResult<Vec<u32>> {
+    // The count is usually a pixel count from the header: make sure the values are
+    // there before reserving space for them
+    if count > reader.remaining() / 4 {
+        return Err(Error::UnexpectedEof);
+    }
     let mut values = Vec::with_capacity(count);
     for _ in 0..count {
         values.push(reader.read_u32_le()?);
